@@ -761,6 +761,96 @@ def run(ctx):
                 "decode_eof / decode are not chosen by `remaining <= available`")
 
 
+    with ctx.rule("C10.R17", "T1", "what consume_bounded took from the body is booked in the decoder's state on every way out", floor=4) as r:
+        # `let (consumed, result) = consume_bounded(*remaining, src, inner); *remaining -= consumed;` - the inner decoder has taken `consumed` bytes of
+        # the body whatever it answered. When it asks for more (Ok(None)) and the count is not written back, the next call offers it more bytes than the
+        # frame still has: the end of the body is not seen (no decode_eof), and the bytes of the next frame are eaten in its place.
+        n17 = 0
+        for c0, b in decs:
+            tag = (b.meta.get("self_adt") or "?").split("::")[-1]
+            for c in b.calls:
+                if c.name != "consume_bounded" or c.dest is None:
+                    continue
+                n17 += 1
+                booked = set()
+                for i, j, p_, rv, line in b.assigns():
+                    if not p_[1] or b.resolve(p_).root != 1:
+                        continue
+                    ops = [rv[1]] if rv[0] == "use" else list(rv[2]) if rv[0] == "agg" else [rv[2], rv[3]] if rv[0] == "bin" else []
+                    for o in ops:
+                        if o[0] in ("c", "m") and any(x[0] == "call" and x[1] is c for x in b.sources(o)):
+                            booked.add(i)
+                ok, wit = b.must_pass(b.succ[c.block], booked) if booked else (False, None)
+                r.check(ok, "%s/consume_bounded@%s/count-booked-on-every-way-out" % (tag, describe_operand(b, c.args[2]).split(".")[-1][:24]), c.loc(),
+                        "the number of bytes the inner decoder took is written into the decoder's state before any return",
+                        "a way out of decode after consume_bounded does not write the consumed count into the state (path %s): when the inner decoder asks for more input the bytes it has already "
+                        "taken are forgotten, the next call offers it more than the frame has left, the end of the body is missed and bytes of the following frame are consumed with it" % (wit,))
+        if n17 < 4:
+            raise AnchorMissing("decoders: expected the consume_bounded call sites (found %d)" % n17)
+
+    with ctx.rule("C10.R18", "T2", "the Recon body decoder starts afresh after every result that ends a value - a value or an error", floor=3) as r:
+        # RecognizerDecoder is the body decoder under every typed decoder. The framing decoder skips the rest of a bad body and goes on with the next
+        # frame; if the parser, the recognizer and the location tracker keep what the bad body left behind, the next body is read on top of it (an
+        # attribute too many, or a good frame rejected). `reset` must be reached whenever decode_bytes answered anything but Ok(None).
+        rc_ = ctx.crate("swimos_recon")
+        rdec = [b for b in rc_.all_bodies() if b.meta.get("name") in ("decode", "decode_eof") and "RecognizerDecoder" in (b.meta.get("self_adt") or "") and "WithLen" not in (b.meta.get("self_adt") or "")
+                and _suffix_match(b.meta.get("trait"), "codec::decoder::Decoder")]
+        if len(rdec) != 2:
+            raise AnchorMissing("RecognizerDecoder::decode / decode_eof (found %d)" % len(rdec))
+        for b in rdec:
+            ctx.saw(b)
+            nm = b.meta.get("name")
+            resets = {c.block for c in b.calls if c.name == "reset" and c.args and src_root(b, c.args[0]) == 1}
+            if nm == "decode_eof":
+                # the end of the input ends the value whatever was found
+                firsts = [c for c in b.calls if c.name in ("decode_inner", "decode_bytes")]
+                ok, wit = b.must_pass(b.succ[firsts[0].block], resets) if firsts and resets else (False, None)
+                r.check(ok, "RecognizerDecoder/decode_eof/always-resets", where(b), "decode_eof resets the decoder on every way out after it has looked at the input", "decode_eof can return without resetting the decoder (%s)" % (wit,))
+                continue
+            inner = [c for c in b.calls if c.name == "decode_bytes"]
+            if len(inner) != 1:
+                raise AnchorMissing("RecognizerDecoder::decode: one decode_bytes call")
+            for variant, what in (("Err", "an error"), ("Some", "a value")):
+                # from the outcome onwards: `?` (the Err edge returns at once), a match, or `if !matches!(result, Ok(None))`
+                sws = b.result_switches(inner[0])
+                starts = []
+                te = b.try_edges(inner[0])
+                for si in sws:
+                    ve = b.variant_edges(si["block"]) or {}
+                    if variant == "Err" and "Err" in ve:
+                        starts.append((si, "Err"))
+                assume = None
+                if variant == "Err":
+                    if te is not None:
+                        ok, wit = b.must_pass([te[1]], resets)
+                    elif starts:
+                        si = starts[0][0]
+                        wit = b.path_avoiding([(b.variant_edges(si["block"]) or {})["Err"]], set(b.exits()), avoid=resets, assume=b.variant_assumption(si, "Err"))
+                        ok = wit is None
+                    else:
+                        ok, wit = False, "the result of decode_bytes is not examined"
+                else:
+                    # Ok(Some(_)): every way from the call to a return on which the answer is Some passes reset; decided with the outcome assumed
+                    ok, wit = False, None
+                    for si in sws:
+                        ve = b.variant_edges(si["block"]) or {}
+                        if "Ok" in ve:
+                            inner_sw = [s2 for s2 in b.switches_on(lambda p_, s2: True) if s2.get("kind") == "disc" and (s2.get("adt") or "").endswith("option::Option") and "decode_bytes" in (switch_desc(b, s2["block"]) or "")]
+                            if inner_sw:
+                                ok, wit = b.must_pass_assuming(inner_sw[0]["block"], "Some", resets)
+                    if te is not None and not ok:
+                        # `let result = decode_bytes(..)?; if result.is_some() { reset }`
+                        some_sw = [s2 for s2 in b.switches_on(lambda p_, s2: True) if s2.get("kind") == "disc" and (s2.get("adt") or "").endswith("option::Option")]
+                        isome = [c for c in b.calls if c.name in ("is_some", "is_none")]
+                        if some_sw:
+                            ok, wit = b.must_pass_assuming(some_sw[0]["block"], "Some", resets)
+                        elif isome:
+                            be = b.bool_edges(isome[0])
+                            ok, wit = b.must_pass([be[0] if isome[0].name == "is_some" else be[1]], resets) if be else (False, None)
+                r.check(bool(resets) and ok, "RecognizerDecoder/decode/%s=>reset" % variant, where(b), "after %s the decoder is reset" % what,
+                        "RecognizerDecoder::decode can answer %s without resetting the parser, the recognizer and the location tracker (%s): the framing decoder skips the rest of the frame and the next "
+                        "body is parsed on top of what the bad one left behind - a silently wrong message, or a good frame rejected" % (what, wit))
+
     with ctx.rule("C10.R16", "T7", "fixed-width reads after a size check never take more bytes than the check established", floor=20) as r:
         # `if src.remaining() < HEADER_LEN { return Ok(None) }` followed by get_u8 / get_u64 / advance(n): the Buf getters panic when the buffer is
         # shorter than what they take. On every path from the edge on which `remaining() >= K` holds, the bytes taken by fixed-width reads - up to the
